@@ -235,10 +235,20 @@ int pthread_once(pthread_once_t* o, void (*fn)(void)) {
     if (*st == 2) return 0;
     if (*st == 0) {
       *st = 1;
-      fn();
+      auto wake = [o] {
+        for (int i = 0; i < R.nthreads; ++i)
+          if (R.thr[i].st == S_BLK_ONCE && R.thr[i].wait_obj == (const void*)o) make_runnable(&R.thr[i]);
+      };
+      try {
+        fn();
+      } catch (...) {
+        // an exceptional call (std::call_once whose callable throws): glibc resets the control so that another call can run it
+        *st = 0;
+        wake();
+        throw;
+      }
       *st = 2;
-      for (int i = 0; i < R.nthreads; ++i)
-        if (R.thr[i].st == S_BLK_ONCE && R.thr[i].wait_obj == (const void*)o) make_runnable(&R.thr[i]);
+      wake();
       return 0;
     }
     block_current(S_BLK_ONCE, (const void*)o, 0);
